@@ -113,6 +113,51 @@ impl Workload for Explore {
     }
 }
 
+/// The recursive programs of C09's workload (declaration graphs with self loops and mutual recursion, `rec` terms in
+/// applied functions, recursion through imports and twins) and its cycles with nothing to cut at: whatever the checker
+/// accepts of them is evaluated and emitted, and only crashes are judged here.
+pub struct RecGraphs {
+    pub n: u64,
+}
+
+impl RecGraphs {
+    fn sources(&self, seed: u64, idx: u64) -> Option<(Sources, String)> {
+        if idx % 10 == 9 {
+            let mut rng = crate::util::Rng::for_case(seed, "c01rec-neg", idx);
+            let (t, fam) = super::c09::uncuttable(&mut rng);
+            return Some((Sources::single(&t), format!("recgraph-uncuttable:{fam}")));
+        }
+        let mut st = Stats::new();
+        super::c09::case(seed ^ 0x5eed_c01, idx, &mut st).map(|(src, _, _, fam)| (src, format!("recgraph:{fam}")))
+    }
+}
+
+impl Workload for RecGraphs {
+    fn len(&self) -> u64 {
+        self.n
+    }
+    fn case_json(&self, seed: u64, idx: u64) -> Value {
+        match self.sources(seed, idx) {
+            Some((src, origin)) => json!({"sources": src.to_json(), "origin": origin}),
+            None => json!({"skipped": true}),
+        }
+    }
+    fn run(&self, seed: u64, idx: u64, st: &mut Stats) -> Vec<Violation> {
+        let Some((src, origin)) = self.sources(seed, idx) else { return vec![] };
+        run_sources(&src, &origin, src.files.len() > 1, &super::explore::ALL_SHAPES, st)
+    }
+    fn run_json(&self, case: &Value, st: &mut Stats) -> Vec<Violation> {
+        if case.get("skipped").is_some() {
+            return vec![];
+        }
+        let src = Sources::from_json(&case["sources"]);
+        run_sources(&src, case["origin"].as_str().unwrap_or("replay"), src.files.len() > 1, &super::explore::ALL_SHAPES, st)
+    }
+    fn chunk(&self) -> u64 {
+        100
+    }
+}
+
 /// Nesting-depth families (every bracket form, application / rec / declaration chains), all accepted.
 pub struct Depth;
 
@@ -216,6 +261,10 @@ pub fn run(ctx: &Ctx) -> i32 {
     };
     acc.pool(&wl, "explore", true);
     acc.pool(&Depth, "c01depth", true);
+    let rg = RecGraphs {
+        n: if ctx.quick() { 10_000 } else { 300_000 },
+    };
+    acc.pool(&rg, "c01rec", true);
     let accepted_mutants = acc.stats.get("nontrivial");
     if accepted_mutants < 100 {
         acc.inconclusive.push(format!("only {accepted_mutants} accepted mutants were observed"));
@@ -226,7 +275,7 @@ pub fn run(ctx: &Ctx) -> i32 {
     }
     acc.finish(
         "exploration",
-        "per 20 cases: 3 G-wt programs, 10 kind-breaking AST mutants of G-wt programs (subterm replaced by a snippet or variable of another kind, subterms swapped, arity changed, subterm wrapped), 4 token/byte mutants, 3 corpus programs or their mutants; plus 12 nesting families at depths 1..200; each loaded, and if accepted evaluated and emitted in a worker process; non-trivial = a mutant or nesting program that the checker accepted (so evaluation ran on it); distinct by source hash",
+        "per 20 cases: 3 G-wt programs, 10 kind-breaking AST mutants of G-wt programs (subterm replaced by a snippet or variable of another kind, subterms swapped, arity changed, subterm wrapped), 4 token/byte mutants, 3 corpus programs or their mutants; plus 12 nesting families at depths 1..200; plus the recursive programs of C09's generator (declaration graphs with self loops and mutual recursion, rec terms in applied functions, recursion through imports and twin modules, and cycles with nothing to cut at); each loaded, and if accepted evaluated and emitted in a worker process; non-trivial = a mutant or nesting program that the checker accepted (so evaluation ran on it); distinct by source hash",
         if ctx.quick() { 300 } else { 3000 },
         false,
         &["panics are caught per stage; aborts and hangs are attributed by the worker pool (DESIGN.md 3.2)",
